@@ -1,6 +1,9 @@
 package prove
 
 import (
+	"fmt"
+	"os"
+	"strings"
 	"go/token"
 	"go/types"
 	"math/big"
@@ -151,6 +154,8 @@ func (w *World) EntryFacts(fn *ssa.Function) []entryFact {
 	var cands []entryFact
 	for _, p := range ints {
 		cands = append(cands, entryFact{kind: 'n', p: p})
+		cands = append(cands, entryFact{kind: 'P', p: p}) // p >= 1 (a stride, a width, a count of at least one)
+		cands = append(cands, entryFact{kind: 'U', p: p}) // p <= 2^31 (sums with an index cannot overflow)
 	}
 	for _, q := range seqs {
 		for _, k := range consts {
@@ -202,6 +207,10 @@ func (w *World) EntryFacts(fn *ssa.Function) []entryFact {
 			switch cd.kind {
 			case 'n':
 				g = lin.GE0(ctx.Lin(args[cd.p]))
+			case 'P':
+				g = lin.GE(ctx.Lin(args[cd.p]), lin.K(1))
+			case 'U':
+				g = lin.LE(ctx.Lin(args[cd.p]), lin.K(1<<31))
 			case 'l':
 				g = lin.GE(ctx.LenOf(args[cd.q]), lin.K(cd.k))
 			case 's':
@@ -222,6 +231,24 @@ func (w *World) EntryFacts(fn *ssa.Function) []entryFact {
 	}
 	// keep only the strongest of each family (largest K)
 	w.entryC[fn] = out
+	if len(out) > 0 {
+		// while the call sites were being examined, summaries and loop invariants of
+		// fn (and of its callers) may have been computed WITHOUT these facts and
+		// cached: forget them, they are recomputed with the facts on next use
+		w.forget(fn)
+		for _, site := range sites {
+			if caller := site.Parent(); caller != nil {
+				w.forget(caller)
+			}
+		}
+	}
+	if os.Getenv("MANTICHECK_DEBUG_ENTRY") != "" {
+		fmt.Fprintf(os.Stderr, "entry facts %s: %d sites, %d/%d candidates alive:", fn.String(), len(sites), len(out), len(cands))
+		for _, o := range out {
+			fmt.Fprintf(os.Stderr, " %c(p%d,q%d,k%d)", o.kind, o.p, o.q, o.k)
+		}
+		fmt.Fprintln(os.Stderr)
+	}
 	return out
 }
 
@@ -246,6 +273,10 @@ func (c *Ctx) addEntryFacts() {
 		switch ef.kind {
 		case 'n':
 			c.add(lin.GE0(c.Lin(fn.Params[ef.p])))
+		case 'P':
+			c.add(lin.GE(c.Lin(fn.Params[ef.p]), lin.K(1)))
+		case 'U':
+			c.add(lin.LE(c.Lin(fn.Params[ef.p]), lin.K(1<<31)))
 		case 'l':
 			c.add(lin.GE(c.LenOf(fn.Params[ef.q]), lin.K(ef.k)))
 		case 's':
@@ -258,3 +289,39 @@ func (c *Ctx) addEntryFacts() {
 }
 
 var _ = big.NewInt
+
+// forget drops the cached loop invariants of fn and every cached summary keyed
+// by fn (sound to drop at any time when fn's invariant computation is not in
+// progress: they are recomputed on demand).
+func (w *World) forget(fn *ssa.Function) {
+	if fi := w.fi[fn]; fi != nil {
+		if len(fi.invStack) > 0 {
+			return
+		}
+		fi.invC = map[*ssa.Phi][]invariant{}
+		fi.hdrDone = map[*ssa.BasicBlock]bool{}
+		fi.provisional = map[*ssa.BasicBlock][]*ssa.BasicBlock{}
+		fi.invBusy = map[ssa.Value]bool{}
+	}
+	pre := fn.String() + "#"
+	for k := range w.nonNeg {
+		if strings.HasPrefix(k, pre) {
+			delete(w.nonNeg, k)
+		}
+	}
+	for k := range w.lenRelC {
+		if strings.HasPrefix(k, pre) {
+			delete(w.lenRelC, k)
+		}
+	}
+	for k := range w.intLenC {
+		if strings.HasPrefix(k, pre) {
+			delete(w.intLenC, k)
+		}
+	}
+	for k := range w.condC {
+		if strings.HasPrefix(k, pre) {
+			delete(w.condC, k)
+		}
+	}
+}
